@@ -166,9 +166,12 @@ def rule_c(ck, R):
             ent = sym.add(('f', T, 'entry'), hi[0])
             A = L(('f', ent, 'address'))
             Ss = [x for c in p.cond_terms() for x in sym.subterms(c) if x[0] == 'i' and 'rds_size' in fmt(x[1])]
-            if not Ss:
+            # size of the register looked at (rds_size[entry.type]), whether or not the code consults it
+            Sterm = Ss[0] if Ss else ('i', ('&', ('v', 'rds_size')), ('f', ent, 'type'))
+            S = L(Sterm)
+            facts = facts + size_facts([S])
+            if p.end == 'loopback' and not p.cond_terms():
                 continue
-            S = L(Ss[0])
             if p.end == 'return' and p.ret is not None and p.ret[0] == 'struct' and dict(p.ret[2]).get('valid') == C(1):
                 sel += 1
                 if dict(p.ret[2]).get('handle') != hi[0]:
@@ -180,7 +183,8 @@ def rule_c(ck, R):
             elif p.end == 'loopback':
                 skip += 1
                 if not eng.entails(facts, lin.le(A + S, L(ADDR))):
-                    bad = bad or 'skips a register that is not wholly below the start address'
+                    bad = bad or ('skips a register under {%s} although it may still overlap the range (its end address + size can lie above addr): '
+                                  'a range starting inside a multi-word register does not visit that register' % '; '.join(fmt(c) for c in p.cond_terms()[-2:]))
         if sel == 0 and bad is None:
             bad = 'no selecting path'
         if sel and not gap_ok and bad is None:
